@@ -167,21 +167,43 @@ def lib_ranges(binp, nm):
 
 
 
+STDLIB_STEPPED = re.compile(r"^(hash/|crypto/|encoding/|bytes\.|strings\.|math/bits\.|math/big\.|sort\.|slices\.|strconv\.|unicode|container/|bufio\.|github\.com/klauspost/)")
+
+
+def stdlib_ranges(nm):
+    """functions of standard-library (and dependency) packages that compute on data: stepped when reached from the
+    package's own code (kind 's'), so that a table lookup or a data-dependent branch inside a callee is seen too"""
+    out = []
+    for line in nm.splitlines():
+        f = line.split()
+        if len(f) >= 4 and f[2] in ("T", "t") and STDLIB_STEPPED.match(f[3]):
+            try:
+                lo, sz = int(f[0], 16), int(f[1])
+            except ValueError:
+                continue
+            if sz > 0:
+                out.append((lo, lo + sz, f[3], "s"))
+    return out
+
+
 REGIDX = {"rax": 3, "rbx": 4, "rcx": 5, "rdx": 6, "rsi": 7, "rdi": 8, "rbp": 9, "rsp": 2, "r8": 10, "r9": 11, "r10": 12, "r11": 13, "r12": 14, "r13": 15, "r14": 16, "r15": 17}
 MEMOP = re.compile(r"(%[a-z]s:)?(-?0x[0-9a-f]+|-?[0-9]+)?\((%[a-z0-9]+)?(?:,(%[a-z0-9]+)(?:,([1248]))?)?\)")
 
 
-def mem_operands(binp, rngs, dis_path=None):
+def mem_operands(binp, rngs, dis_path=None, more=None):
     """pc -> [(disp, base_index, index_index, scale)] for the register-addressed memory operands of the Go functions
     in rngs (binutils objdump, AT&T syntax); lea / nop forms and segment-relative operands are not accesses."""
     ops = {}
     for lo, hi, _n, kind in rngs:
-        if kind != "g":
+        if kind not in ("g", "s"):
             continue
         od = subprocess.run(["objdump", "-d", "--no-show-raw-insn", "--start-address=0x%x" % lo, "--stop-address=0x%x" % hi, binp], capture_output=True, text=True).stdout
         if dis_path:
             with open(dis_path, "a") as fh:
                 fh.write(od)
+        if more is not None:
+            for mm in re.finditer(r"^\s*([0-9a-f]+):\s+call\s+[0-9a-f]+ <runtime\.morestack", od, re.M):
+                more.add(int(mm.group(1), 16))
         for line in od.splitlines():
             m = re.match(r"^\s*([0-9a-f]+):\s+(\S+)\s*(.*)$", line)
             if not m:
@@ -223,11 +245,15 @@ def run_steps(out, tier, seed, workdir, vt, binp, nm, mark):
     if len(rngs) < 10:
         out.inconclusive.append("paths/steps: only %d library functions of package sm4 found in the binary" % len(rngs))
         return
+    nlib = len(rngs)
+    lib_rngs = list(rngs)
+    # standard-library code is stepped too when the package's code calls it (no entry breakpoints there)
+    taken = set(r[0] for r in rngs)
+    rngs = sorted(rngs + [r for r in stdlib_ranges(nm) if r[0] not in taken])
     los = [r[0] for r in rngs]
     dis_path = os.path.join(workdir, "steps_go.dis")
     if os.path.exists(dis_path):
         os.remove(dis_path)
-    memops = mem_operands(binp, rngs, dis_path)
     st_lo = st_hi = None
     for line in nm.splitlines():
         f = line.split()
@@ -246,7 +272,7 @@ def run_steps(out, tier, seed, workdir, vt, binp, nm, mark):
     with open(rfile, "w") as fh:
         for lo, hi, _n, kind in rngs:
             fh.write("%x %x %s\n" % (lo, hi, kind))
-    bparg = ",".join(["%x:G" % step, "%x:m" % mark] + ["%x:L" % r[0] for r in rngs])
+    bparg = ",".join(["%x:G" % step, "%x:m" % mark] + ["%x:L" % r[0] for r in lib_rngs])
     with open(log, "w") as lf:
         rc = subprocess.call(["timeout", "-s", "KILL", "1200", vt, "-o", trace, "-r", rfile, "-b", bparg, "--", binp, "-test.run", "^TestVtracePublicSteps$", "-test.timeout", "20m"],
                              cwd=workdir, env=env, stdout=lf, stderr=subprocess.STDOUT)
@@ -265,7 +291,23 @@ def run_steps(out, tier, seed, workdir, vt, binp, nm, mark):
     if not ended:
         out.inconclusive.append("paths/steps: workload did not finish")
         return
-    # parse: marker(id) -> entry -> steps -> returned
+    # pass 1: which functions did the trace enter? only those are disassembled (memory operands, taint, morestack sites)
+    hitfn = set()
+    with open(trace, "rb") as fh:
+        while True:
+            chunk = fh.read(152 * 65536)
+            if not chunk:
+                break
+            for off in range(0, len(chunk) - 151, 152):
+                tag, rip = struct.unpack_from("<2Q", chunk, off)
+                if tag & 0xff in (0, 1):
+                    i = bisect.bisect_right(los, rip) - 1
+                    if i >= 0 and rip < rngs[i][1]:
+                        hitfn.add(i)
+    more = set(more)
+    memops = mem_operands(binp, [rngs[i] for i in sorted(hitfn)], dis_path, more)
+    out.counters["public_steps_standard_library_functions_stepped"] = sum(1 for i in hitfn if rngs[i][3] == "s")
+    # pass 2: marker(id) -> entry -> steps -> returned
     seqs = {}      # id -> list of pcs inside the library
     stat = {}      # id -> list of (pc, effective address) of register-addressed accesses to the binary's static data
     nstat = 0
@@ -388,7 +430,8 @@ def run_steps(out, tier, seed, workdir, vt, binp, nm, mark):
     out.counters["public_steps_instructions_in_package"] = kept
     out.counters["public_steps_sequences_compared"] = compared
     out.counters["public_steps_shapes"] = len(groups)
-    out.notes["public_steps_library_functions"] = "%d Go functions stepped, %d assembly routines logged at entry" % (sum(1 for r in rngs if r[3] == "g"), sum(1 for r in rngs if r[3] == "a"))
+    out.notes["public_steps_library_functions"] = "%d Go functions stepped, %d assembly routines logged at entry; %d standard-library functions would be stepped if called from them" % (sum(1 for r in rngs if r[3] == "g"), sum(1 for r in rngs if r[3] == "a"), sum(1 for r in rngs if r[3] == "s"))
+    out.notes["public_steps_standard_library_functions_entered"] = sorted(rngs[i][2] for i in hitfn if rngs[i][3] == "s")[:40]
     try:
         m = re.search(r"lib-steps (\d+) lib-lost (\d+)", open(log).read())
         if m:
